@@ -256,7 +256,8 @@ pub fn finish_parsing_balanced_tokens<S: vm::TokenStream>(
     stream: &mut S,
     result: &mut Vec<token::Token>,
 ) -> txl::Result<()> {
-    let mut scope_depth = 0;
+    // A 64-bit counter: the depth is bounded only by the number of tokens in the input.
+    let mut scope_depth = 0_i64;
     loop {
         let token = stream.next_or_err(TokenStreamEndOfInputError {})?;
         match token.value() {
